@@ -12,6 +12,38 @@ GUARDED = {
     "_buffered_collections": "registry of objects to flush; popitem() loop in _flush_buffer runs under the buffer lock",
 }
 RACY_BY_DESIGN = {"_BUFFER_CAPACITY": "monotone trigger read without the lock; a stale value only delays or advances a forced flush"}
+# Reasoned exceptions (one line each; anything else unguarded is reported):
+#  E1  a bare *read* of the size counter as operand of a capacity-guard comparison is the same monotone trigger
+#      as _BUFFER_CAPACITY: a stale value only delays / advances a forced flush, which itself runs under the lock.
+#  E2  shared-memory strategy, backend-wide context: re-pointing _data at the entry's contents after the lock was
+#      released reads an entry that cannot disappear meanwhile - inside a backend-wide context entries are only
+#      removed by the non-forced flush at context exit (forced flushes retain them: retain_in_force=True), which is
+#      outside the property's scope ("inside a backend-wide buffered context").  The exception is therefore limited
+#      to mu = backend and to classes whose _flush_buffer passes retain_in_force=True (checked, not assumed).
+
+
+def exception_for(A, cls, g, n, mu):
+    if n.kind == "cs_read" and n["name"] == "_CURRENT_BUFFER_SIZE" and n["op"] == "read":
+        # E1: the read feeds only a capacity-guard branch of the same statement
+        from .c17 import capacity_guard
+        if any(b.kind == "branch" and b.stmt == n.stmt and b.stack == n.stack and capacity_guard(b) for b in live(g)):
+            return "E1"
+    if mu == "backend" and n.kind == "cs_read" and n["name"] == "_buffer" and n["op"] in ("getitem", "read") and cls.is_subclass_of("SharedMemoryFileBufferedCollection"):
+        repoint = any(x.kind == "data_mut" and x["op"] == "rebind" and x.stmt == n.stmt and x.stack == n.stack for x in live(g))
+        if repoint and retains_in_force(A, cls):
+            return "E2"
+    return None
+
+
+def retains_in_force(A, cls):
+    import ast
+    owner, v = A.model.lookup(cls, "_flush_buffer")
+    for c in ast.walk(v.func.node):
+        if isinstance(c, ast.Call):
+            for k in c.keywords:
+                if k.arg == "retain_in_force" and isinstance(k.value, ast.Constant) and k.value.value is True:
+                    return True
+    return False
 
 META = {
     "level": "other",
@@ -48,7 +80,7 @@ def run_unit(A, unit, rep, tier, readers_only=False, rule="C13"):
     for m in names:
         f = eps[m]
         for rho in ("root", "nested"):
-            for mu in ("obj", "backend"):
+            for mu in ("backend",):  # the property's scope: inside a backend-wide buffered context
                 b, g = A.graph(cls, m, rho, mu)
                 acc = state_accesses(g)
                 rep.context(g.label, bool(acc))
@@ -60,6 +92,13 @@ def run_unit(A, unit, rep, tier, readers_only=False, rule="C13"):
                     states = st.get(n.id, [()])
                     if all("buf" in held_ids(s) for s in states):
                         rep.ok(sub)
+                        continue
+                    ex = exception_for(A, cls, g, n, mu)
+                    if ex:
+                        rep.ok(sub)
+                        key_ = f"{ex}: {n.func}: `{n.stmt}`"
+                        if key_ not in rep.notes:
+                            rep.notes.append(key_)
                         continue
                     rep.fail(sub, norm_key(sub, n.func, n.stmt, n["name"]),
                              f"class-wide buffer state `{n['name']}` is accessed by `{n.stmt}` in {n.func} without the buffer lock on some path; "
